@@ -212,35 +212,44 @@ func runC07(c *engine.Ctx) {
 		acceptF := field(c, "pkg/util/vhost", "Listener", "accept")
 		if unameF != nil && checkF != nil && acceptF != nil {
 			// the hand-off: a closure run by PanicToError that sends on l.accept
-			var site ssa.Instruction
-			engine.ForEachInstr(h, func(in ssa.Instruction) {
-				call, ok := in.(ssa.CallInstruction)
-				if !ok {
-					return
+			isHandOff := func(x ssa.Instruction) bool {
+				if s, ok := x.(*ssa.Send); ok {
+					if lf, _ := engine.LoadedField(s.Chan); lf == acceptF {
+						return true
+					}
 				}
-				for _, a := range call.Common().Args {
-					if mc, ok := a.(*ssa.MakeClosure); ok {
-						if cf, ok := mc.Fn.(*ssa.Function); ok {
-							engine.ForEachInstr(cf, func(x ssa.Instruction) {
-								if s, ok := x.(*ssa.Send); ok {
-									if lf, _ := engine.LoadedField(s.Chan); lf == acceptF {
-										site = in
-									}
+				return false
+			}
+			sites := stepsThatDo(h, isHandOff)
+			if len(sites) == 0 {
+				c.Undecide("pkg/util/vhost.Muxer.handle>hand-off", h.Pos(), "hand-off send not found")
+			}
+			lnT := c.P.Named("pkg/util/vhost", "Listener")
+			isLn := func(t types.Type) bool { return lnT != nil && engine.NamedOf(engine.Deref(t)) == lnT }
+			for si, site := range sites {
+				site := site
+				n++
+				// the listener that receives the connection at this site
+				var targets []ssa.Value
+				switch x := site.(type) {
+				case *ssa.Send:
+					if _, base := engine.LoadedField(x.Chan); base != nil {
+						targets = append(targets, base)
+					}
+				case ssa.CallInstruction:
+					for _, a := range engine.CallArgs(x) {
+						if isLn(a.Type()) {
+							targets = append(targets, a)
+						}
+						if mc, ok := a.(*ssa.MakeClosure); ok {
+							for _, b := range mc.Bindings {
+								if isLn(b.Type()) {
+									targets = append(targets, b)
 								}
-							})
+							}
 						}
 					}
 				}
-				if s, ok := in.(*ssa.Send); ok {
-					if lf, _ := engine.LoadedField(s.Chan); lf == acceptF {
-						site = in
-					}
-				}
-			})
-			if site == nil {
-				c.Undecide("pkg/util/vhost.Muxer.handle>hand-off", h.Pos(), "hand-off send not found")
-			} else {
-				n++
 				isCheckCall := func(v ssa.Value, idx int) bool {
 					cl, i := engine.ResultOfCall(v)
 					if cl == nil || i != idx {
@@ -249,15 +258,49 @@ func runC07(c *engine.Ctx) {
 					lf, _ := engine.LoadedField(cl.Call.Value)
 					return lf == checkF
 				}
-				c.AllPaths("pkg/util/vhost.Muxer.handle>hand-off", engine.PathCheck{Fn: h, Sink: engine.Is(site), Pred: func(st *engine.PathState) string {
+				key := "pkg/util/vhost.Muxer.handle>hand-off"
+				if si > 0 {
+					key = fmt.Sprintf("%s#%d", key, si+1)
+				}
+				c.AllPaths(key, engine.PathCheck{Fn: h, Sink: engine.Is(site), Pred: func(st *engine.PathState) string {
+					// the listener whose credentials the path looked at must be the one that gets the connection
+					sameListener := func(v ssa.Value) bool {
+						_, base := engine.LoadedField(engine.Unwrap(v))
+						if base == nil || len(targets) == 0 {
+							return true
+						}
+						rb := st.Resolve(engine.Unwrap(base))
+						for _, t := range targets {
+							rt := st.Resolve(engine.Unwrap(t))
+							if al, ok := rt.(*ssa.Alloc); ok { // a captured variable: the cell, compared by what it holds
+								if u, ok := engine.Unwrap(base).(*ssa.UnOp); ok && u.X == ssa.Value(al) {
+									return true
+								}
+								if cv := st.CellValue(al); cv != nil && (cv == rb || engine.SameExpr(cv, rb)) {
+									return true
+								}
+								continue
+							}
+							if rb == rt || engine.SameExpr(rb, rt) {
+								return true
+							}
+						}
+						return false
+					}
+					checked := func(v ssa.Value) bool { return loadOfField(unameF)(v) && sameListener(v) }
 					// no user configured on the listener
-					if eq, k := st.Equal(loadOfField(unameF), func(v ssa.Value) bool { s, ok := engine.ConstString(v); return ok && s == "" }); k && eq {
+					if eq, k := st.Equal(checked, func(v ssa.Value) bool { s, ok := engine.ConstString(v); return ok && s == "" }); k && eq {
 						return ""
 					}
 					okv, k1 := st.Truth(func(v ssa.Value) bool { return isCheckCall(v, 0) })
 					errNil, k2 := st.IsNil(func(v ssa.Value) bool { return isCheckCall(v, 1) })
 					if k1 && okv && k2 && errNil {
-						return ""
+						// … and the check was given this listener's credentials
+						_, k3 := st.Equal(checked, func(v ssa.Value) bool { s, ok := engine.ConstString(v); return ok && s == "" })
+						if k3 {
+							return ""
+						}
+						return "the connection is handed to a listener other than the one whose credentials were checked"
 					}
 					// a muxer without auth function (https): allowed only when the function field is nil
 					if isNil, k := st.IsNil(loadOfField(checkF)); k && isNil {
